@@ -113,12 +113,21 @@ Definition liquid_metric (R Qm Ninv : mat) (p : vec) (mask : list bool) : mat :=
 Fixpoint all_zero (v : vec) : bool :=
   match v with [] => true | a :: v' => Qeq_bool a 0 && all_zero v' end.
 
+(* products of the implementation's floats (dyadic rationals) WITHOUT normalisation: the gcds taken
+   by C20's qadd/qmul dominate the run time on 53-bit mantissas and are pointless for dyadics *)
+Fixpoint rdot (u v : vec) : Q :=
+  match u, v with a :: u', b :: v' => a * b + rdot u' v' | _, _ => 0 end.
+Definition rmat_mul (nc : nat) (A B : mat) : mat :=
+  let Bt := transpose nc B in map (fun r => map (fun c => rdot r c) Bt) A.
+Definition cov_check (tol : Q) (n k : nat) (A T : mat) : bool :=
+  mclose tol (rmat_mul n (rmat_mul n T (transpose k T)) A) (identity n).
+
 (* T given by rows (one row per coordinate, k columns):
    liquid rows: (T_l T_l^T) (J_l^T N^-1 J_l + 1) = 1 within tol; frozen rows: exactly zero *)
 Definition factor_ok (tol : Q) (k : nat) (R Qm Ninv : mat) (p : vec) (mask : list bool) (T : mat) : bool :=
   let Tl := pick mask T in
   let Tf := pick (map negb mask) T in
-  corr_cov tol (count_true mask) k (liquid_metric R Qm Ninv p mask) Tl && forallb all_zero Tf.
+  cov_check tol (count_true mask) k (liquid_metric R Qm Ninv p mask) Tl && forallb all_zero Tf.
 
 (* mirrored residuals: entry 2k+1 is the exact negative of entry 2k *)
 Fixpoint mirrored_ok (rs : list vec) : bool :=
